@@ -385,3 +385,398 @@ Section PermutedMaxima.
         apply (maxima_length percentile im1 P Hsep Hmg Hsz p Hp).
   Qed.
 End PermutedMaxima.
+
+(* ============================================================ the mask box *)
+Section PermutedBox.
+  Variables (n : nat) (axes inv : list nat).
+  Hypothesis Hax : axes_pair n axes inv.
+
+  Lemma grid_permute_in : forall ds q, length ds = n -> In q (grid ds) -> In (zperm axes q) (grid (zperm axes ds)).
+  Proof.
+    intros ds q Ls H. apply in_grid in H. destruct H as [L B].
+    apply grid_in; [rewrite !(permute_length n axes inv Hax); reflexivity|].
+    intros d Hd. rewrite (permute_length n axes inv Hax) in Hd.
+    rewrite !(ix_permute n axes inv) by assumption. apply B. rewrite Ls. apply (axes_lt n axes inv Hax), Hd.
+  Qed.
+End PermutedBox.
+
+Lemma grid_permute : forall n axes inv ds, axes_pair n axes inv -> length ds = n ->
+  Permutation (grid (zperm axes ds)) (map (zperm axes) (grid ds)).
+Proof.
+  intros n axes inv ds Hax Ls. pose proof (axes_pair_sym _ _ _ Hax) as Hinv. apply NoDup_Permutation.
+  - apply NoDup_grid.
+  - apply NoDup_map_inj_in; [|apply NoDup_grid].
+    intros x y Hx Hy E. apply in_grid in Hx, Hy. destruct Hx as [Lx _], Hy as [Ly _].
+    apply (permute_inj n axes inv Z 0 x y Hax); congruence.
+  - intros q. rewrite in_map_iff. split.
+    + intros H. pose proof (in_grid _ _ H) as [Lq _]. rewrite (permute_length n axes inv Hax) in Lq.
+      exists (zperm inv q). split; [apply (permute_cancel n axes inv); assumption|].
+      apply (grid_permute_in n inv axes Hinv) in H; [|apply (permute_length n axes inv Hax)].
+      rewrite (permute_cancel n inv axes) in H by assumption. exact H.
+    + intros [p [<- Hp]]. apply (grid_permute_in n axes inv Hax); assumption.
+Qed.
+
+Lemma box_permute : forall n axes inv radius, axes_pair n axes inv -> length radius = n ->
+  Permutation (Model.COM.box (zperm axes radius)) (map (zperm axes) (Model.COM.box radius)).
+Proof.
+  intros n axes inv radius Hax L. unfold Model.COM.box.
+  rewrite (permute_map n axes inv Hax Z Z 0 0) by exact L.
+  apply (grid_permute n axes inv); [exact Hax|rewrite map_length; exact L].
+Qed.
+
+(* ================================================== masks.py under permutation *)
+Section PermutedMask.
+  Variables (axes inv : list nat) (radius : list Z).
+  Let n := length radius.
+  Hypothesis Hax : axes_pair n axes inv.
+
+  Lemma zsum_box_permute : forall f : list Z -> Z,
+    zsum (map f (Model.COM.box (zperm axes radius))) = zsum (map (fun p => f (zperm axes p)) (Model.COM.box radius)).
+  Proof.
+    intros. rewrite (zsum_perm _ _ (Permutation_map f (box_permute n axes inv radius Hax eq_refl))), map_map. reflexivity.
+  Qed.
+
+  Lemma list_max_box_permute : forall f : list Z -> Z,
+    list_max (map f (Model.COM.box (zperm axes radius))) = list_max (map (fun p => f (zperm axes p)) (Model.COM.box radius)).
+  Proof.
+    intros. rewrite (list_max_perm _ _ (Permutation_map f (box_permute n axes inv radius Hax eq_refl))), map_map. reflexivity.
+  Qed.
+
+  Lemma offs_permute : forall p, offs (zperm axes radius) (zperm axes p) = zperm axes (offs radius p).
+  Proof.
+    intros p. unfold offs. rewrite (permute_length n axes inv Hax). fold n.
+    apply (map_seq_permute n axes inv Hax). intros k Hk.
+    rewrite !(ix_permute n axes inv) by assumption. reflexivity.
+  Qed.
+
+  Lemma ell_permute : forall o, (ell (zperm axes radius) (zperm axes o) == ell radius o)%Q.
+  Proof.
+    intros o. unfold ell. rewrite (permute_length n axes inv Hax). fold n.
+    rewrite (map_seq_permute n axes inv Hax Q 0%Q
+               (fun d => let q := (inject_Z (ix o d) / inject_Z (ix radius d))%Q in (q * q)%Q)).
+    - apply qsum_perm, (permute_as_perm n axes inv Hax). rewrite map_length, seq_length. reflexivity.
+    - intros k Hk. cbv zeta. rewrite !(ix_permute n axes inv) by assumption. reflexivity.
+  Qed.
+
+  Lemma binary_mask_permute : forall p, binary_mask (zperm axes radius) (zperm axes p) = binary_mask radius p.
+  Proof.
+    intros p. unfold binary_mask. rewrite offs_permute.
+    apply eq_true_iff_eq. rewrite !Qle_bool_iff. rewrite ell_permute. reflexivity.
+  Qed.
+
+  Lemma isotropic_permute : isotropic (zperm axes radius) = isotropic radius.
+  Proof.
+    pose proof (permute_as_perm n axes inv Hax Z 0 radius eq_refl) as Hp.
+    apply eq_true_iff_eq. rewrite !isotropic_iff. split; intros H x y Hx Hy; apply H.
+    - apply (Permutation_in _ (Permutation_sym Hp)), Hx.
+    - apply (Permutation_in _ (Permutation_sym Hp)), Hy.
+    - apply (Permutation_in _ Hp), Hx.
+    - apply (Permutation_in _ Hp), Hy.
+  Qed.
+End PermutedMask.
+
+(* ================================================ _refine under permutation *)
+Section PermutedRefine.
+  Variables pix1 pix2 raw1 raw2 : list Z -> Z.
+  Variables (axes inv : list nat) (radius sh1 : list Z) (thresh : Q) (mask1 mask2 : list Z -> bool).
+  Let n := length radius.
+  Hypothesis Hax : axes_pair n axes inv.
+  Hypothesis Hsh : length sh1 = n.
+  Hypothesis Hpix : forall p, length p = n -> pix2 (zperm axes p) = pix1 p.
+  Hypothesis Hraw : forall p, length p = n -> raw2 (zperm axes p) = raw1 p.
+  Hypothesis Hmask : forall p, mask2 (zperm axes p) = mask1 p.
+
+  Let radius2 := zperm axes radius.
+  Let Ln2 : length radius2 = n := permute_length n axes inv Hax Z 0 radius.
+
+  Lemma at_win_permute : forall c p, at_win radius2 (zperm axes c) (zperm axes p) = zperm axes (at_win radius c p).
+  Proof.
+    intros c p. unfold at_win, dims, ndim. rewrite Ln2. fold n.
+    apply (map_seq_permute n axes inv Hax). intros k Hk.
+    unfold radius2. rewrite !(ix_permute n axes inv) by assumption. reflexivity.
+  Qed.
+
+  Lemma at_win_len : forall c p, length (at_win radius c p) = n.
+  Proof. intros. unfold at_win, dims, ndim. rewrite map_length, seq_length. reflexivity. Qed.
+
+  Lemma nbh_permute : forall c p, nbh pix2 radius2 mask2 (zperm axes c) (zperm axes p) = nbh pix1 radius mask1 c p.
+  Proof.
+    intros c p. unfold nbh. rewrite Hmask. destruct (mask1 p); [|reflexivity].
+    rewrite at_win_permute. apply Hpix, at_win_len.
+  Qed.
+
+  Lemma nb_sum_permute : forall c, nb_sum pix2 radius2 mask2 (zperm axes c) = nb_sum pix1 radius mask1 c.
+  Proof.
+    intros c. unfold nb_sum, radius2. rewrite (zsum_box_permute axes inv radius Hax). f_equal.
+    apply map_ext. intros p. apply nbh_permute.
+  Qed.
+
+  Lemma nb_moment_permute : forall c k, (k < n)%nat ->
+    nb_moment pix2 radius2 mask2 (zperm axes c) k = nb_moment pix1 radius mask1 c (nth k axes 0%nat).
+  Proof.
+    intros c k Hk. unfold nb_moment, radius2. rewrite (zsum_box_permute axes inv radius Hax). f_equal.
+    apply map_ext. intros p. fold radius2. rewrite nbh_permute.
+    rewrite (ix_permute n axes inv) by assumption. reflexivity.
+  Qed.
+
+  Lemma safe_com_permute : forall c,
+    safe_com pix2 radius2 mask2 (zperm axes c) = qperm axes (safe_com pix1 radius mask1 c).
+  Proof.
+    intros c. unfold safe_com. rewrite nb_sum_permute.
+    destruct (nb_sum pix1 radius mask1 c =? 0).
+    - unfold radius2. apply (permute_map n axes inv Hax). reflexivity.
+    - unfold dims, ndim. rewrite Ln2. fold n. apply (map_seq_permute n axes inv Hax).
+      intros k Hk. rewrite nb_moment_permute by exact Hk. reflexivity.
+  Qed.
+
+  Lemma offc_permute : forall c,
+    offc pix2 radius2 mask2 (zperm axes c) = qperm axes (offc pix1 radius mask1 c).
+  Proof.
+    intros c. unfold offc. rewrite Ln2, safe_com_permute. fold n.
+    apply (map_seq_permute n axes inv Hax). intros k Hk.
+    unfold radius2. rewrite (qx_permute n axes inv), (ix_permute n axes inv) by assumption. reflexivity.
+  Qed.
+
+  Lemma cmi_permute : forall off c,
+    cmi_of radius2 (qperm axes off) (zperm axes c) = qperm axes (cmi_of radius off c).
+  Proof.
+    intros off c. unfold cmi_of. rewrite Ln2. fold n.
+    apply (map_seq_permute n axes inv Hax). intros k Hk.
+    rewrite (qx_permute n axes inv), (ix_permute n axes inv) by assumption. reflexivity.
+  Qed.
+
+  Lemma nextc_permute : forall off c,
+    nextc radius2 (zperm axes sh1) thresh (qperm axes off) (zperm axes c) = zperm axes (nextc radius sh1 thresh off c).
+  Proof.
+    intros off c. unfold nextc. rewrite Ln2. fold n.
+    apply (map_seq_permute n axes inv Hax). intros k Hk.
+    unfold upper, radius2. rewrite (qx_permute n axes inv) by assumption.
+    rewrite !(ix_permute n axes inv) by assumption. reflexivity.
+  Qed.
+
+  Lemma offc_len : forall pix mask c, length (offc pix radius mask c) = n.
+  Proof. intros. unfold offc. rewrite map_length. apply seq_length. Qed.
+
+  Lemma ref_loop_permute : forall k c,
+    let s1 := ref_loop pix1 radius sh1 thresh mask1 k c in
+    let s2 := ref_loop pix2 radius2 (zperm axes sh1) thresh mask2 k (zperm axes c) in
+    r_rect s2 = zperm axes (r_rect s1) /\ r_cmi s2 = qperm axes (r_cmi s1).
+  Proof.
+    induction k as [|k IH]; intros c; cbv zeta;
+      rewrite (ref_loop_unfold pix1), (ref_loop_unfold pix2); cbv zeta;
+      rewrite offc_permute; unfold all_lt;
+      rewrite (forallb_perm _ _ _ _ (permute_as_perm n axes inv Hax Q 0%Q _ (offc_len pix1 mask1 c)));
+      destruct (forallb _ (offc pix1 radius mask1 c)); cbn [r_rect r_cmi].
+    - split; [reflexivity|apply cmi_permute].
+    - split; [reflexivity|apply cmi_permute].
+    - split; [reflexivity|apply cmi_permute].
+    - rewrite nextc_permute. apply IH.
+  Qed.
+
+  Lemma ref_output_permute : forall charz s1 s2,
+    r_rect s2 = zperm axes (r_rect s1) -> r_cmi s2 = qperm axes (r_cmi s1) ->
+    row_permuted axes (ref_output pix1 raw1 radius mask1 charz s1) (ref_output pix2 raw2 radius2 mask2 charz s2).
+  Proof.
+    intros charz s1 s2 Er Ec. unfold ref_output, row_permuted. rewrite Er, Ec.
+    rewrite nb_sum_permute.
+    destruct charz; cbn [negb o_pos o_mass o_char char_permuted]; [|repeat split].
+    split; [reflexivity|]. split; [reflexivity|]. split; [|split].
+    - unfold radius2 at 1. rewrite (isotropic_permute axes inv radius Hax).
+      destruct (isotropic radius) eqn:Eiso.
+      + cbn [length Nat.eqb]. f_equal. f_equal. unfold radius2. rewrite (zsum_box_permute axes inv radius Hax). f_equal.
+        apply map_ext. intros p. fold radius2. rewrite nbh_permute, Hmask. unfold radius2.
+        rewrite (offs_permute axes inv radius Hax).
+        rewrite (permute_map n axes inv Hax Z Z 0 0) by apply offs_length.
+        rewrite (zsum_perm _ _ (permute_as_perm n axes inv Hax Z 0 _ ltac:(rewrite map_length; apply offs_length))).
+        reflexivity.
+      + unfold dims, ndim. rewrite Ln2, map_length, seq_length. fold n.
+        assert (Hn1 : (n =? 1)%nat = false).
+        { apply Nat.eqb_neq. intros E1. unfold isotropic in Eiso.
+          destruct radius as [|r [|r' rs]]; cbn in E1; try discriminate.
+          cbn in Eiso. rewrite Z.eqb_refl in Eiso. discriminate. }
+        rewrite Hn1. apply (map_seq_permute n axes inv Hax). intros k Hk.
+        f_equal. f_equal. unfold radius2. rewrite (zsum_box_permute axes inv radius Hax). f_equal.
+        apply map_ext. intros p. fold radius2. rewrite nbh_permute, Hmask. unfold radius2.
+        rewrite !(ix_permute n axes inv) by assumption. reflexivity.
+    - unfold radius2. rewrite (list_max_box_permute axes inv radius Hax). f_equal.
+      apply map_ext. intros p. apply nbh_permute.
+    - unfold radius2. rewrite (zsum_box_permute axes inv radius Hax). f_equal. apply map_ext. intros p.
+      rewrite Hmask. destruct (mask1 p); [|reflexivity].
+      fold radius2. rewrite at_win_permute. apply Hraw, at_win_len.
+  Qed.
+End PermutedRefine.
+
+(* (P2) one row of refine_com on the image with permuted axes *)
+Theorem refine_at_permuted : forall axes inv P im1 im2 start,
+  axes_pair (length (shape im1)) axes inv -> axes_permuted axes im1 im2 ->
+  length (lp_radius P) = length (shape im1) ->
+  row_permuted axes (refine_at P im1 start) (refine_at (lp_perm axes P) im2 (zperm axes start)).
+Proof.
+  intros axes inv P im1 im2 start Hax [Es Hp] Hr.
+  unfold refine_at, refine_python, ref_run, lp_perm.
+  cbn [lp_radius lp_thresh lp_maxit lp_char]. rewrite Es. rewrite <- Hr in Hax, Hp.
+  assert (Hm : forall p, binary_mask (zperm axes (lp_radius P)) (zperm axes p) = binary_mask (lp_radius P) p)
+    by (intros; apply (binary_mask_permute axes inv (lp_radius P) Hax)).
+  destruct (ref_loop_permute (pix im1) (pix im2) axes inv (lp_radius P) (shape im1) (lp_thresh P)
+              (binary_mask (lp_radius P)) (binary_mask (zperm axes (lp_radius P)))
+              Hax Hp Hm (pred (iters_of (lp_maxit P))) start) as [E1 E2].
+  apply ref_output_permute with (inv := inv) (sh1 := shape im1); solve [assumption | symmetry; assumption].
+Qed.
+
+(* ============================ the discrete pipeline under an axis permutation *)
+Section PermutedPipeline.
+  Variable percentile : list Z -> Q.
+  Hypothesis percentile_perm : forall l l', Permutation l l' -> percentile l = percentile l'.
+
+  (* (P3) locate's table before the tail on np.transpose(image, axes), per-axis parameters
+     taken in the same axis order: the same rows as a multiset, every row permuted *)
+  Theorem locate_discrete_permuted : forall axes inv im1 im2 P,
+    axes_pair (length (shape im1)) axes inv -> axes_permuted axes im1 im2 ->
+    length (lp_sep P) = length (shape im1) -> length (lp_margin P) = length (shape im1) ->
+    length (lp_radius P) = length (shape im1) ->
+    Forall (fun s => 1 <= s) (sizes_of im1 (lp_sep P)) ->
+    exists rows, Permutation (locate_discrete percentile (lp_perm axes P) im2) rows /\
+                 Forall2 (row_permuted axes) (locate_discrete percentile P im1) rows.
+  Proof.
+    intros axes inv im1 im2 P Hax Ht Hsep Hmg Hrad Hsz.
+    exists (map (refine_at (lp_perm axes P) im2) (map (zperm axes) (find_maxima percentile P im1))). split.
+    - unfold locate_discrete. apply Permutation_map.
+      apply (maxima_permuted_perm percentile percentile_perm axes inv); assumption.
+    - unfold locate_discrete. rewrite map_map. apply Forall2_map_in. intros p Hp.
+      apply (refine_at_permuted axes inv); assumption.
+  Qed.
+End PermutedPipeline.
+
+(* ================================== every permutation of 0..n-1 has an inverse *)
+Fixpoint find_index (j : nat) (l : list nat) : nat :=
+  match l with
+  | [] => 0%nat
+  | a :: t => if Nat.eqb a j then 0%nat else S (find_index j t)
+  end.
+(* np.argsort(axes) *)
+Definition inv_of (axes : list nat) : list nat := map (fun j => find_index j axes) (seq 0 (length axes)).
+
+Lemma find_index_in : forall j l, In j l -> (find_index j l < length l)%nat /\ nth (find_index j l) l 0%nat = j.
+Proof.
+  induction l as [|a l IH]; intros H; [destruct H|]. cbn [find_index].
+  destruct (Nat.eqb_spec a j) as [->|Hne]; cbn; [split; [lia|reflexivity]|].
+  destruct H as [E|H]; [congruence|]. destruct (IH H). split; [lia|assumption].
+Qed.
+
+Lemma find_index_nth : forall l k, NoDup l -> (k < length l)%nat -> find_index (nth k l 0%nat) l = k.
+Proof.
+  induction l as [|a l IH]; intros k Hn Hk; [cbn in Hk; lia|]. inversion Hn; subst.
+  destruct k; cbn [nth find_index]; [rewrite Nat.eqb_refl; reflexivity|].
+  cbn in Hk. destruct (Nat.eqb_spec a (nth k l 0%nat)) as [E|_].
+  - exfalso. apply H1. rewrite E. apply nth_In. lia.
+  - f_equal. apply IH; [assumption|lia].
+Qed.
+
+Theorem axes_pair_of_permutation : forall n axes, Permutation axes (seq 0 n) -> axes_pair n axes (inv_of axes).
+Proof.
+  intros n axes Hp.
+  assert (L : length axes = n) by (rewrite (Permutation_length Hp); apply seq_length).
+  assert (Hnd : NoDup axes) by (apply (Permutation_NoDup (Permutation_sym Hp)), seq_NoDup).
+  assert (Hin : forall j, (j < n)%nat -> In j axes)
+    by (intros j Hj; apply (Permutation_in _ (Permutation_sym Hp)), in_seq; lia).
+  assert (Hlt : forall k, (k < n)%nat -> (nth k axes 0 < n)%nat).
+  { intros k Hk. assert (In (nth k axes 0%nat) (seq 0 n)) by (apply (Permutation_in _ Hp), nth_In; lia).
+    apply in_seq in H. lia. }
+  assert (Einv : forall j, (j < n)%nat -> nth j (inv_of axes) 0%nat = find_index j axes).
+  { intros j Hj. unfold inv_of. rewrite L. rewrite nth_map_seq by exact Hj. reflexivity. }
+  split; split.
+  - exact L.
+  - intros k Hk. split; [apply Hlt, Hk|].
+    rewrite Einv by (apply Hlt, Hk). apply find_index_nth; [exact Hnd|lia].
+  - unfold inv_of. rewrite map_length, seq_length. exact L.
+  - intros j Hj. rewrite Einv by exact Hj. destruct (find_index_in j axes (Hin j Hj)) as [A B].
+    split; [lia|exact B].
+Qed.
+
+(* the same two theorems, stated for any list [axes] that is a permutation of 0..n-1 *)
+Corollary refine_at_axes : forall axes P im1 im2 start,
+  Permutation axes (seq 0 (length (shape im1))) -> axes_permuted axes im1 im2 ->
+  length (lp_radius P) = length (shape im1) ->
+  row_permuted axes (refine_at P im1 start) (refine_at (lp_perm axes P) im2 (zperm axes start)).
+Proof.
+  intros axes P im1 im2 start Hp. apply (refine_at_permuted axes (inv_of axes)).
+  apply axes_pair_of_permutation, Hp.
+Qed.
+
+Corollary locate_discrete_axes :
+  forall (percentile : list Z -> Q),
+    (forall l l', Permutation l l' -> percentile l = percentile l') ->
+  forall axes im1 im2 P,
+    Permutation axes (seq 0 (length (shape im1))) -> axes_permuted axes im1 im2 ->
+    length (lp_sep P) = length (shape im1) -> length (lp_margin P) = length (shape im1) ->
+    length (lp_radius P) = length (shape im1) ->
+    Forall (fun s => 1 <= s) (sizes_of im1 (lp_sep P)) ->
+    exists rows, Permutation (locate_discrete percentile (lp_perm axes P) im2) rows /\
+                 Forall2 (row_permuted axes) (locate_discrete percentile P im1) rows.
+Proof.
+  intros percentile Hperc axes im1 im2 P Hp.
+  apply (locate_discrete_permuted percentile Hperc axes (inv_of axes)).
+  apply axes_pair_of_permutation, Hp.
+Qed.
+
+(* numpy .T is the axis order n-1, ..., 0 *)
+Lemma permute_rev_seq : forall (A : Type) (def : A) (v : list A),
+  permute def (rev (seq 0 (length v))) v = rev v.
+Proof.
+  intros. unfold permute. rewrite map_rev. f_equal.
+  apply (nth_ext _ _ def def); [rewrite map_length, seq_length; reflexivity|].
+  intros k Hk. rewrite map_length, seq_length in Hk. rewrite nth_map_seq by exact Hk. reflexivity.
+Qed.
+
+(* ------------------------------------------------ np.transpose as a constructor *)
+Definition transpose_axes (axes : list nat) (im : image) : image :=
+  let sh := zperm axes (shape im) in
+  {| shape := sh; data := arr_of sh (fun q => pix im (zperm (inv_of axes) q)) |}.
+
+Theorem transpose_axes_permuted : forall axes im,
+  Permutation axes (seq 0 (length (shape im))) ->
+  (forall p, pix im p <> 0 -> in_bounds (shape im) p) ->
+  axes_permuted axes im (transpose_axes axes im).
+Proof.
+  intros axes im Hp Hw. pose proof (axes_pair_of_permutation _ _ Hp) as Hax.
+  split; [reflexivity|]. intros p Lp. unfold transpose_axes, pix at 1. cbn [data].
+  rewrite get_arr_of.
+  rewrite (permute_cancel _ (inv_of axes) axes Z 0 p (axes_pair_sym _ _ _ Hax) Lp).
+  destruct (inb _ _) eqn:E; [reflexivity|].
+  destruct (Z.eq_dec (pix im p) 0) as [E0|E0]; [symmetry; exact E0|].
+  apply Hw in E0.
+  apply (in_bounds_permute1 _ axes (inv_of axes) _ _ Hax eq_refl) in E0.
+  apply inb_iff in E0. congruence.
+Qed.
+
+(* ---------------------------------------------------- a 3-D instance *)
+(* an ellipsoidal blob at (4, 5, 6) in a 9x10x12 volume, diameter (3, 5, 5); the volume
+   with its axes taken in the order (2, 0, 1): shape 12x9x10 *)
+Definition ex3_blob (c : list Z) : Z :=
+  Z.max 0 (12 - 3 * ((ix c 0 - 4) * (ix c 0 - 4)) - 2 * ((ix c 1 - 5) * (ix c 1 - 5)) - (ix c 2 - 6) * (ix c 2 - 6)).
+Definition ex3_im : image := tab [9; 10; 12] ex3_blob.
+Definition ex3_P : lparams := mkLP [3#1; 5#1; 5#1]%Q [1; 2; 2] [1; 2; 2] (3 # 5) 3 true.
+Definition ex3_axes : list nat := [2; 0; 1]%nat.
+
+Lemma ex3_premises :
+  Permutation ex3_axes (seq 0 (length (shape ex3_im))) /\
+  axes_permuted ex3_axes ex3_im (transpose_axes ex3_axes ex3_im) /\
+  length (lp_sep ex3_P) = length (shape ex3_im) /\ length (lp_margin ex3_P) = length (shape ex3_im) /\
+  length (lp_radius ex3_P) = length (shape ex3_im) /\
+  Forall (fun s => 1 <= s) (sizes_of ex3_im (lp_sep ex3_P)).
+Proof.
+  assert (Hp : Permutation ex3_axes (seq 0 (length (shape ex3_im)))).
+  { cbn. apply (Permutation_cons_app [0%nat; 1%nat] [] 2%nat). apply Permutation_refl. }
+  split; [exact Hp|]. split; [apply transpose_axes_permuted; [exact Hp|apply tab_wf]|].
+  repeat split.
+  assert (E : sizes_of ex3_im (lp_sep ex3_P) = [3; 5; 5]) by (vm_compute; reflexivity).
+  rewrite E. repeat constructor; lia.
+Qed.
+
+Lemma ex3_locate_permuted :
+  shape (transpose_axes ex3_axes ex3_im) = [12; 9; 10] /\
+  locate_discrete ex_percentile ex3_P ex3_im =
+    [mkOut [528 # 132; 660 # 132; 792 # 132]%Q 132 (Some ([54 # 132; 264 # 132; 366 # 132]%Q, 12, 132))] /\
+  locate_discrete ex_percentile (lp_perm ex3_axes ex3_P) (transpose_axes ex3_axes ex3_im) =
+    [mkOut [792 # 132; 528 # 132; 660 # 132]%Q 132 (Some ([366 # 132; 54 # 132; 264 # 132]%Q, 12, 132))].
+Proof. vm_compute. repeat split. Qed.
